@@ -122,6 +122,26 @@ def job(j):
     f3 = dict(functions)
     f3[n] = clone_function(functions[n])
     attempt("same", {"kind": "clone-function", "id": n}, functions=f3)
+    # a pure ADDITION: the version of a rule from another date installed under a new key (the documented renaming through the
+    # dict key); it is decorated, so its own name_in_dag names an existing node -- no existing column may change
+    try:
+        other = None
+        for d_ in gs.regime_dates("2009-01-01", "2025-12-31"):
+            if d_ == date:
+                continue
+            f_other = gs.env(d_)[1]
+            cand = [n for n in cols if n in functions and n in f_other and getattr(f_other[n], "__name__", n) != getattr(functions[n], "__name__", n)
+                    and getattr(f_other[n], "__info__", None) and all(a in cols or a in df.columns or a.endswith("_params") for a in gs.arg_names(f_other[n]))]
+            if cand:
+                other = (d_, rnd.choice(cand), f_other)
+                break
+        if other:
+            d_, n_, f_other = other
+            f4 = dict(functions)
+            f4["verif_added_variant"] = f_other[n_]
+            attempt("same", {"kind": "added-variant-under-new-key", "id": f"{n_}@{d_}"}, functions=f4)
+    except Exception as e:  # noqa: BLE001
+        info["errors"].append({"run": k, "kind": "added-variant-under-new-key", "id": "", "error": f"{type(e).__name__}: {str(e)[:120]}"})
     # the untouched environment after all reforms: no leakage between handles
     attempt("same", {"kind": "baseline-again", "id": ""})
     out = tr.judge()
